@@ -211,6 +211,16 @@ func (e *Exec) builtinCopy(dst *SliceV, srcv Value) Value {
 		for i := 0; i < k; i++ {
 			tmp[i] = copyVal(srcCells[i])
 		}
+		if e.logging {
+			// the builtin reads and writes memory like k loads and stores (C11 access log;
+			// logAccess keeps the first few per instruction)
+			for i := 0; i < k && i < 6; i++ {
+				if s, ok := srcv.(*SliceV); ok {
+					e.logAccess(&s.A[i], false, e.lastInstr)
+				}
+				e.logAccess(&dst.A[i], true, e.lastInstr)
+			}
+		}
 		copy(dst.A, tmp)
 		return n
 	}
